@@ -11,7 +11,10 @@ LEVEL_TEXT = ("Exhaustive over a finite matrix: TLC enumerates DebugGate.tla (co
               "outcome (stream output class, argument evaluations, control) of every cell; a probe translation unit with one function "
               "per statement is compiled against the current headers once per DEBUG value and linked with the current msgs.c/debug.c "
               "built the same way; every cell runs in a forked child with fd 2 captured, along a walk that also takes every "
-              "set-level / set-silent transition of the specification.")
+              "set-level / set-silent transition of the specification; a second walk takes every PAIR of consecutive set transitions "
+              "(self-loops included) in one process, each followed by statements gated by the flag or a level; five histories per "
+              "statement (clean, after a failed write, inside an atexit handler of a fatal error, after refused prints, after the same "
+              "statement).")
 LEVEL_NOTE = ("Message lengths are swept (7..20481 bytes) in the all-live configuration of every build only. The matrix is finite and fully enumerated; the claim is about these 24 statements (not DPRINTF7-9, ASSERT_NOTREACHED, "
               "ABORT, MOO). Where the statement is silent (are the arguments of a live but silenced D_* statement evaluated?) both "
               "outcomes are accepted. Trusted: TLC, harness/dbg_probe.c, clang.")
@@ -83,6 +86,32 @@ def make_walk(edges_by_state, macros, rnd, revisit=2, enabled=lambda st, m: True
     return script
 
 
+PROBES = ("print_warning", "print_error", "dprintf", "DPRINTF1", "DPRINTF3", "D_OPTIONS", "REQUIRE_fail", "ASSERT_fail")
+
+
+def make_pairs_walk(edges_by_state, macros, rnd, enabled=lambda st, m: True):
+    """Every PAIR of consecutive set transitions (e1 into a configuration, e2 out of it - self-loops included, so also "the same
+    value set twice, then changed"), then one statement whose gate is the silent flag or a level plus a random one, at e2's target.
+    A setter that is not idempotent (counts its calls, toggles, remembers the previous value) shows only on such a pair; the
+    episodes run in ONE process, so whatever a setter accumulates is carried from pair to pair."""
+    script, cur = [], (0, False)
+    for u in sorted(edges_by_state):
+        for (op1, a1, v) in sorted(edges_by_state[u]):
+            for (op2, a2, w) in sorted(edges_by_state[v]):
+                if cur[0] != u[0]:
+                    script.append(("L", u[0]))
+                if cur[1] != u[1]:
+                    script.append(("S", int(u[1])))
+                script.append(("L" if op1 == "set_level" else "S", a1))
+                script.append(("L" if op2 == "set_level" else "S", a2))
+                cur = w
+                here = [m for m in macros if enabled(cur, m)]
+                gated = [m for m in here if m[0] in PROBES and m[1:] == ("clean", "alone", "int", "none")]
+                for m in ([rnd.choice(gated)] if gated else []) + rnd.sample(here, 1):
+                    script.append(("X", m))
+    return script
+
+
 MSG_STATEMENTS = ["D_OPTIONS", "D_OBJ", "D_CONF", "D_MEM", "D_STRINGS", "D_PARSE", "DPRINTF1", "DPRINTF2", "DPRINTF3", "DPRINTF4",
                   "DPRINTF5", "DPRINTF6", "print_warning", "print_error", "dprintf", "fatal_error"]
 
@@ -135,16 +164,17 @@ def run(ctx):
                 raise Broken("spec: set_silent returns the new value")
     macros = sorted({k[3:] for k in allowed})          # (statement, history, statement context, condition type, write fault)
     ds = sorted(setedges)
-    if len({m[0] for m in macros}) != 28 or len({m[2] for m in macros}) != 5 or len({m[3] for m in macros}) != 10 or len({m[4] for m in macros}) != 7 or len(ds) != 6:
+    if len({m[1] for m in macros}) != 5 or len({m[0] for m in macros}) != 28 or len({m[2] for m in macros}) != 5 or len({m[3] for m in macros}) != 10 or len({m[4] for m in macros}) != 7 or len(ds) != 6:
         raise Broken("matrix incomplete: %d statement/history/context triples, %d compile-time levels" % (len(macros), len(ds)))
     rnd = random.Random(ctx.seed)
     st = {"executed": 0, "sweep": 0}
     distinct = set()
     nontrivial = set()
     set_taken = 0
+    pair_sets = [0]
     sizes = message_sizes()
 
-    def judge(d, cur_r, cur_s, a, line, size):
+    def judge(d, cur_r, cur_s, a, line, size, history=None):
         m, hist, cx, ty, wf = a
         w = line.split()
         f = dict(x.split("=", 1) for x in w[4:])
@@ -178,7 +208,7 @@ def run(ctx):
             ok, why = False, " (process ended with status %s, not through the fatal-error path)" % f["status"]
         if not ok:
             exp = sorted(allowed[cell])
-            tags = ({"clean": "", "after_failed_write": "/after-failed-write", "in_atexit_of_fatal": "/in-atexit-of-fatal", "after_refused_print": "/after-refused-print"}[hist]
+            tags = ({"clean": "", "after_failed_write": "/after-failed-write", "in_atexit_of_fatal": "/in-atexit-of-fatal", "after_refused_print": "/after-refused-print", "after_same_statement": "/after-same-statement"}[hist]
                     + ("" if cx == "alone" else "/" + cx) + ("" if size == 0 else "/long-message") + ("" if ty == "int" else "/cond:" + ty)
                     + ("" if wf == "none" else "/write-fault:" + wf))
             tags = tags.replace("//", "/")
@@ -190,30 +220,34 @@ def run(ctx):
                             "allowed by the rule (out, eval, ctl, else arm executed, garbled): %s" % (d, cur_r, cur_s, m, hist, cx, ty, wf, size, line[:300], why, exp),
                        {"debug": d, "level": cur_r, "silent": cur_s, "statement": m, "history": hist, "context": cx, "type": ty, "size": size,
                         "observed": line[:400], "allowed": [list(x) for x in exp],
-                        "script": "L %d\nS %d\n%s\n" % (cur_r, int(cur_s), cmd_text("X", a, size))})
+                        "script": history() if history else "L %d\nS %d\n%s\n" % (cur_r, int(cur_s), cmd_text("X", a, size))})
 
     for d in ds:
         libdir, cflags = build.build_lib(ctx.repo, debug_level=d)
         exe = build.build_harness("dbg_probe-d%d" % d, ["dbg_probe.c"], libdir, cflags)
         script = make_walk(setedges[d], macros, rnd, revisit=2 if ctx.tier == "quick" else 24,
                            enabled=lambda st, m, d=d: (d, st[0], st[1]) + m in allowed)
-        lines = run_probe(ctx, exe, d, script, "walk")
-        cur_r, cur_s = 0, False
-        for (c, a), line in zip(script, lines):
-            w = line.split()
-            if c == "L":
-                set_taken += 1
-                cur_r = int(a)
-                if w != ["L", str(int(a))]:
-                    ctx.report("set_level readback", "DEBUG=%d: %r after setting level %s" % (d, line, a), {"debug": d, "script": script_text(script)})
-                continue
-            if c == "S":
-                set_taken += 1
-                cur_s = bool(a)
-                if w != ["S", str(int(a)), str(int(a))]:
-                    ctx.report("set_silent return value", "DEBUG=%d: %r" % (d, line), {"debug": d, "script": script_text(script)})
-                continue
-            judge(d, cur_r, cur_s, a, line, 0)
+        for tag, script in (("walk", script), ("pairs", make_pairs_walk(setedges[d], macros, rnd, enabled=lambda st, m, d=d: (d, st[0], st[1]) + m in allowed))):
+            lines = run_probe(ctx, exe, d, script, tag)
+            cur_r, cur_s = 0, False
+            for i, ((c, a), line) in enumerate(zip(script, lines)):
+                w = line.split()
+                if c == "L":
+                    set_taken += (tag == "walk")
+                    pair_sets[0] += (tag == "pairs")
+                    cur_r = int(a)
+                    if w != ["L", str(int(a))]:
+                        ctx.report("set_level readback", "DEBUG=%d: %r after setting level %s" % (d, line, a), {"debug": d, "script": script_text(script[:i + 1])})
+                    continue
+                if c == "S":
+                    set_taken += (tag == "walk")
+                    pair_sets[0] += (tag == "pairs")
+                    cur_s = bool(a)
+                    if w != ["S", str(int(a)), str(int(a))]:
+                        ctx.report("set_silent return value", "DEBUG=%d: %r (command %d of the %s script)" % (d, line, i + 1, tag),
+                                   {"debug": d, "script": script_text(script[:i + 1]), "observed": line})
+                    continue
+                judge(d, cur_r, cur_s, a, line, 0, history=((lambda i=i, script=script: script_text(script[:i + 1])) if tag == "pairs" else None))
         # size sweep (direction B family): every message-bearing statement, every size, in the configuration where everything that is
         # compiled in is live (runtime level 6, not silenced); the rule does not know the message length, so the outcome is the cell's
         sweep = [("L", 6), ("S", 0)] + [("Z", ((m, "clean", "alone", "int", "none"), n)) for m in MSG_STATEMENTS for n in sizes]
@@ -236,6 +270,7 @@ def run(ctx):
     ctx.cov["cells_in_matrix"] = len(allowed)
     ctx.cov["cells_with_two_allowed_outcomes"] = sum(1 for v in allowed.values() if len(v) > 1)
     ctx.cov["set_transitions_taken"] = set_taken
+    ctx.cov["set_transition_pairs"] = {"rule": "every pair of consecutive set_level / set_silent transitions (self-loops included) in one process, followed by a gated statement", "set_commands": pair_sets[0]}
     ctx.cov["size_sweep"] = {"sizes": len(sizes), "min": sizes[0], "max": sizes[-1], "statements": len(MSG_STATEMENTS), "executions": st["sweep"]}
     ctx.cov["exhaustive"] = True
     ctx.cov["rule"] = ("every cell (DEBUG 0..5, runtime level 0..6, silent, statement, stream history, statement context) of the matrix TLC "
@@ -252,7 +287,7 @@ def run(ctx):
                         "stream output is classified by its marker (FATAL: / Warning: / Error: / other = debug)"]
 
 
-HLETTER = {"clean": "X", "after_failed_write": "Y", "in_atexit_of_fatal": "A", "after_refused_print": "R"}
+HLETTER = {"clean": "X", "after_failed_write": "Y", "in_atexit_of_fatal": "A", "after_refused_print": "R", "after_same_statement": "P"}
 FKIND = {"EINTR": 1, "EAGAIN": 2, "short": 3}
 
 
